@@ -60,7 +60,7 @@ impl Scenario for Full {
     fn runs(&self, tier: Tier) -> u64 {
         match tier {
             Tier::Quick => 300_000,
-            Tier::Thorough => 15_000_000,
+            Tier::Thorough => 30_000_000,
         }
     }
     fn declare(&self, cov: &mut Cov) {
@@ -680,7 +680,7 @@ impl Scenario for Chaos {
     fn runs(&self, tier: Tier) -> u64 {
         match tier {
             Tier::Quick => 240_000,
-            Tier::Thorough => 8_000_000,
+            Tier::Thorough => 40_000_000,
         }
     }
     fn declare(&self, cov: &mut Cov) {
